@@ -114,7 +114,7 @@ PROPS = {
             "iso": {"bin": "verifh", "run": "TestC12Iso", "checks": {"quick": 300, "thorough": 200000}, "shards": {"quick": 4, "thorough": 16}},
             "id-static": {"bin": "omni", "run": "TestC12Static", "checks": {"quick": 2000, "thorough": 500000}, "shards": {"quick": 1, "thorough": 16}},
             "id-dup-main": {"bin": "omni", "run": "TestC12DupMain", "kind": "plain"},
-            "id-main": {"bin": "omni", "run": "TestC12ViaMain", "checks": {"quick": 3, "thorough": 320}, "shards": {"quick": 1, "thorough": 16}, "shrinktime": "90s"},
+            "id-main": {"bin": "omni", "run": "TestC12ViaMain", "checks": {"quick": 3, "thorough": 320}, "shards": {"quick": 1, "thorough": 16}, "shrinktime": "30s"},
         },
     },
     "C11": {
@@ -211,6 +211,7 @@ PROPS = {
         "parts": {
             "points": {"bin": "verifh", "run": "TestC06Points", "checks": {"quick": 8, "thorough": 1600}, "shards": {"quick": 1, "thorough": 16}, "shrinktime": "60s"},
             "random": {"bin": "verifh", "run": "TestC06Random", "checks": {"quick": 20, "thorough": 9600}, "shards": {"quick": 1, "thorough": 16}, "shrinktime": "20s"},
+            "binary-fixed": {"bin": "omni", "run": "TestC06BinaryFixed", "prog": "omnibin", "kind": "plain"},
             "binary": {"bin": "omni", "run": "TestC06Binary", "prog": "omnibin", "checks": {"quick": 4, "thorough": 480}, "shards": {"quick": 2, "thorough": 16}, "shrinktime": "60s"},
         },
     },
